@@ -403,7 +403,9 @@ if __name__ == '__main__':
     sys.stdout.write(generate(sys.argv[1] if len(sys.argv) > 1 else '/repo'))
 
 
-METHODS = ['_shift_settings_idx', 'ljust', 'rjust', 'center', 'assign_str', 'clip', dict(py='_strip', join=True), 'removeprefix', 'removesuffix',
+METHODS = ['_shift_settings_idx', 'ljust', 'rjust', 'center', 'assign_str', 'clip',
+           dict(py='_split', ret='olist', join=True), dict(py='splitlines', ret='olist', join=True),
+           dict(py='partition', ret='otriple'), dict(py='rpartition', ret='otriple'), dict(py='_strip', join=True), 'removeprefix', 'removesuffix',
            dict(py='insert_settings', point=True, types={'apply': 'bool', 'settings': 'slist', 'topmost': 'bool'}),
            dict(py='__next__', iter=True, lean='iterStep', after_target='settings',
                 entry=[('current_settings', 'slist'), ('settings', 'point'), ('with_assertions', 'bool')]),
